@@ -17,7 +17,7 @@ ID = 'C01'
 TITLE = 'HDF5 round trip is lossless'
 LEVEL = 'exploration'
 RULE = ('generated C01-domain tables (18 id classes incl. non-ASCII, "/", '
-        '300-char; 11 value classes; 8 metadata kinds) x 23 layout recipes '
+        '300-char; 11 value classes; 8 metadata kinds) x 24 layout recipes '
         'x random one-step history x {compress} x {to_hdf5(handle), '
         'save_table(path), save_table default} x {date given/omitted} x '
         'group metadata x table id; each file read by load_table(path), '
